@@ -24,6 +24,7 @@ import (
 	"io"
 	"net/http"
 	"net/url"
+	"slices"
 	"strings"
 	"time"
 
@@ -341,16 +342,31 @@ func (a *remoteAuthorizer) calculateCacheKey(sub *subject.Subject, values map[st
 	binary.LittleEndian.PutUint64(ttlBytes, uint64(a.ttl))
 
 	hash := sha256.New()
-	hash.Write(a.e.Hash())
-	hash.Write(stringx.ToBytes(a.id))
-	hash.Write(stringx.ToBytes(strings.Join(a.headersForUpstream, ",")))
-	hash.Write(stringx.ToBytes(payload))
-	hash.Write(ttlBytes)
-	hash.Write(sub.Hash())
 
-	for k, v := range values {
-		hash.Write(stringx.ToBytes(k))
-		hash.Write(stringx.ToBytes(v))
+	// every part is followed by a separator, so that adjacent parts cannot run into each other
+	write := func(part []byte) {
+		hash.Write(part)
+		hash.Write([]byte{0})
+	}
+
+	write(a.e.Hash())
+	write(stringx.ToBytes(a.id))
+	write(stringx.ToBytes(strings.Join(a.headersForUpstream, ",")))
+	write(stringx.ToBytes(payload))
+	write(ttlBytes)
+	write(sub.Hash())
+
+	// the iteration order of a map is random
+	names := make([]string, 0, len(values))
+	for name := range values {
+		names = append(names, name)
+	}
+
+	slices.Sort(names)
+
+	for _, name := range names {
+		write(stringx.ToBytes(name))
+		write(stringx.ToBytes(values[name]))
 	}
 
 	return hex.EncodeToString(hash.Sum(nil))
